@@ -321,6 +321,16 @@ class TagList(UserList[TagNode]):
 
         return TagList(*item, self)
 
+    def __iadd__(self, item: Iterable[TagChild]) -> TagList:
+        """
+        Add the item(s) to the end of this TagList, in place.
+        """
+
+        # Without this, `UserList.__iadd__()` would add the items as they are (not
+        # flattened or converted to tag nodes, and a string split into characters).
+        self.extend(item)
+        return self
+
     def tagify(self) -> "TagList":
         """
         Convert any tagifiable children to Tag/TagList objects.
